@@ -394,6 +394,18 @@ def dispatch (st : DState) (fs : List String) : DState × String :=
     match p.toNat?, decOptInt e, decOptStr n with
     | some p, some e, some n => let (a, o) := AR.addChildNamed st.ar p e n; ({ st with ar := a }, encOut o)
     | _, _, _ => bad
+  | ["ar.add_copy", src, p, e] =>
+    -- `add_child` of a copy of node `src` of the tree itself: a fresh child of `p` with the payload (name, comment) of `src`
+    match src.toNat?, p.toNat?, decOptInt e with
+    | some src, some p, some e =>
+      if AR.isLive st.ar src then
+        let nm := (AR.nd st.ar src).name
+        let cm := (AR.nd st.ar src).comment
+        match AR.addChildNamed st.ar p e nm with
+        | (a, .ok (some id)) => ({ st with ar := a.setIfInBounds id { AR.nd a id with comment := cm } }, s!"ok {id}")
+        | (a, o) => ({ st with ar := a }, encOut o)
+      else (st, "err NodeNotFound")
+    | _, _, _ => bad
   | ["ar.setname", x, n] => match x.toNat?, decOptStr n with
     | some x, some n =>
       -- in-place edit of the payload through `get_mut` (refused for a removed or unknown id)
